@@ -66,12 +66,31 @@ def lin_eval(e, env):
     return None
 
 
+GETTERS = (("get_total_samples_written", "S"), ("get_total_gap_samples", "G"), ("get_next_available_sample", "N"))
+
+
+def counter_attrs(m):
+    """{attribute: role} - the three counters are whatever the public getters return (`return self.<attr>`)"""
+    out = {}
+    for g_, role in GETTERS:
+        f = m.fn("DigitalRFWriter." + g_)
+        rets = [n for n in ast.walk(f) if isinstance(n, ast.Return) and n.value is not None]
+        if len(rets) != 1 or not (pyfront.dotted(rets[0].value) or "").startswith("self."):
+            raise AnalysisError("DigitalRFWriter.%s: `return self.<counter>` not recognised" % g_)
+        out[pyfront.dotted(rets[0].value)[5:]] = role
+    if len(out) != 3:
+        raise AnalysisError("the three writer counters are not three different attributes: %s" % out)
+    # keep the order S, G, N
+    return dict(sorted(out.items(), key=lambda kv: "SGN".index(kv[1])))
+
+
 def r2_affine_invariant(repo=None):
     r = Rule("C19.R2", "samples written + gap samples = next available sample is preserved by every successful write (affine)")
     m = pyfront.mod("digital_rf_hdf5", repo)
+    ATTR = counter_attrs(m)
     for q, ext in (("DigitalRFWriter.rf_write", "_py_rf_write_hdf5.rf_write"),
                    ("DigitalRFWriter.rf_write_blocks", "_py_rf_write_hdf5.rf_block_write")):
-        fn = m.fn(q)
+        fn = m.flat(q).fn()
         # statements after the try that holds the extension call, at the top level of the function body
         idx = None
         rvar = None
@@ -136,11 +155,11 @@ def r2_affine_invariant(repo=None):
             r.violation(m.rel, q, "counter stores %s" % stores, "each of the three counters must be stored exactly once per call", line=fn.lineno)
             continue
         if N2 != Lin({"r": 1}):
-            r.violation(m.rel, q, "_next_avail_sample' = %s" % N2.show(), "the next available sample must become the extension's "
+            r.violation(m.rel, q, "next available sample' = %s" % N2.show(), "the next available sample must become the extension's "
                         "return value (the C cursor)", line=fn.lineno)
             continue
         if S2 != Lin({"S": 1, "n": 1}):
-            r.violation(m.rel, q, "_total_samples_written' = %s" % S2.show(), "samples written must grow by exactly the number of "
+            r.violation(m.rel, q, "samples written' = %s" % S2.show(), "samples written must grow by exactly the number of "
                         "samples in the accepted array", line=fn.lineno)
             continue
         if ret != Lin({"r": 1}):
@@ -253,29 +272,30 @@ def r4_last_written_survive_close(repo=None):
     dels = [n for n in g.nodes if isinstance(n.ast, ast.Delete) and "_channelObj" in n.label]
     if not dels:
         raise AnalysisError("close(): `del self._channelObj` not found")
-    want = {"_last_file_written": "self.get_last_file_written", "_last_dir_written": "self.get_last_dir_written",
-            "_last_utc_timestamp": "self.get_last_utc_timestamp"}
-    for attr, getter in want.items():
+    for getter in ("self.get_last_file_written", "self.get_last_dir_written", "self.get_last_utc_timestamp"):
+        gq = "DigitalRFWriter." + getter[5:]
+        gf = m.fn(gq)
+        # the fallback attribute: what the getter returns when the channel object is gone
+        attr = None
+        for tr in [x for x in ast.walk(gf) if isinstance(x, ast.Try)]:
+            for h in tr.handlers:
+                names = [pyfront.dotted(h.type)] if h.type is not None and not isinstance(h.type, ast.Tuple) else (
+                    [pyfront.dotted(e) for e in h.type.elts] if h.type is not None else [])
+                if "AttributeError" in names:
+                    for x in ast.walk(h):
+                        if isinstance(x, ast.Return) and (pyfront.dotted(x.value) or "").startswith("self."):
+                            attr = pyfront.dotted(x.value)[5:]
+        if attr is None:
+            r.violation(m.rel, gq, "no AttributeError fallback to a cached attribute", "the getter fails after close", line=gf.lineno)
+            continue
+        r.ok("%s:%s %s" % (m.rel, gf.lineno, gq), "falls back to self.%s when the channel object is gone" % attr)
         st = [n for n in g.nodes if isinstance(n.ast, ast.Assign) and pyfront.dotted(n.ast.targets[0]) == "self." + attr
               and isinstance(n.ast.value, ast.Call) and pyfront.call_name(n.ast.value) == getter]
         if st and not any(d.id in g.reach([g.entry.id], avoid=[x.id for x in st], skip_labels=("exc",)) for d in dels):
             r.ok("%s:%s %s self.%s" % (m.rel, st[0].line, q, attr), "cached from %s() before the channel object is deleted" % getter)
         else:
-            r.violation(m.rel, q, "self.%s not cached before del self._channelObj" % attr, "the value is lost when the writer is "
-                        "closed", line=dels[0].line)
-        gq = "DigitalRFWriter." + getter[5:]
-        gf = m.fn(gq)
-        tr = [s for s in gf.body if isinstance(s, ast.Try)]
-        ok = False
-        if tr:
-            for h in tr[0].handlers:
-                if pyfront.dotted(h.type) == "AttributeError" and any(
-                        isinstance(x, ast.Return) and pyfront.dotted(x.value) == "self." + attr for x in ast.walk(h)):
-                    ok = True
-        if ok:
-            r.ok("%s:%s %s" % (m.rel, gf.lineno, gq), "falls back to self.%s when the channel object is gone" % attr)
-        else:
-            r.violation(m.rel, gq, "no AttributeError fallback to self.%s" % attr, "the getter fails after close", line=gf.lineno)
+            r.violation(m.rel, q, "self.%s not cached from %s() before del self._channelObj" % (attr, getter[5:]), "the value is lost "
+                        "when the writer is closed", line=dels[0].line)
     tu = cfront.lib(repo)
     for f, allowed in (("basename", {"digital_rf_create_hdf5_file"}), ("sub_directory", {"digital_rf_create_new_directory",
                                                                                          "digital_rf_create_write_hdf5"})):
